@@ -40,6 +40,8 @@ inductive Expr where
   | root (e : Expr)                  -- `/e`
   | droot (e : Expr)                 -- `//e`
   | paren (e : Expr)                 -- `(e)`
+  | union (l r : Expr)               -- `l | r`
+  | count (e : Expr)                 -- `count(e)`
   | num (k : Nat)                    -- integer literal
   | position                         -- `position()`
   | last                             -- `last()`
@@ -239,6 +241,18 @@ def eval (m : Mode) (a : Arr) : Expr → Focus → Val
     | some rs => .nodes (docOrder rs)
     | none => .err
   | .paren e, f => eval m a e f
+  | .union l r, f =>
+    -- `select__union_operator` (_xpath1_operators.py:252-266): both operands on `copy(context)`,
+    -- `set(items)`, `sorted(results, key=node_position)`.  (An inner operand of a chain `a | b | c`
+    -- is yielded in set order; it is consumed only by the enclosing union, which sorts.)
+    match eval m a l f, eval m a r f with
+    | .nodes x, .nodes y => .nodes (docOrder (x ++ y))
+    | _, _ => .err
+  | .count e, f =>
+    -- `evaluate__count` (_xpath1_functions.py:130-132): `len([x for x in self[0].select(context)])`
+    match eval m a e f with
+    | .nodes l => .num l.length
+    | _ => .err
   | .num k, _ => .num k
   | .position, f => .num f.pos
   | .last, f => .num f.size
@@ -284,6 +298,14 @@ def ty : Expr → Option Ty
     | some .path => some .path
     | _ => none
   | .paren e => ty e
+  | .union l r =>
+    match ty l, ty r with
+    | some .path, some .path => some .path
+    | _, _ => none
+  | .count e =>
+    match ty e with
+    | some .path => some .num
+    | _ => none
   | .num _ | .position | .last => some .num
   | .cmp _ l r =>
     match ty l, ty r with
@@ -336,6 +358,8 @@ def safeG (ok : Axis → Bool → Nat → Bool) (m : Mode) (a : Arr) : Expr → 
   | .root e, f => safeG ok m a e { f with item := 0 }
   | .droot e, f => (iterDescendants m a true 0).all fun d => safeG ok m a e { f with item := d }
   | .paren e, f => safeG ok m a e f
+  | .union l r, f => safeG ok m a l f && safeG ok m a r f
+  | .count e, f => safeG ok m a e f
   | .cmp _ l r, f => safeG ok m a l f && safeG ok m a r f
   | .and l r, f => safeG ok m a l f && safeG ok m a r f
   | .or l r, f => safeG ok m a l f && safeG ok m a r f
